@@ -1040,6 +1040,16 @@ impl ZonedDateTime {
 
         let timezone = TimeZone::from_time_zone_record(annotation.tz)?;
 
+        // The offset of a date-time string has at most nine fractional digits.
+        if let Some(UtcOffsetRecordOrZ::Offset(offset)) = parse_result.offset {
+            if let Some(fraction) = offset.fraction {
+                if fraction.to_nanoseconds().is_none() {
+                    return Err(TemporalError::range()
+                        .with_message("fractional seconds exceeds nine digits."));
+                }
+            }
+        }
+
         let (offset_nanos, is_exact) = parse_result
             .offset
             .map(|record| {
